@@ -160,6 +160,25 @@ class FnScan:
                     if k is not None and self.alias.get(name) != r:
                         self.alias[name] = r; changed = True
 
+    def resolve_root(self, root):
+        seen = set()
+        while root in self.alias and root not in seen:
+            seen.add(root); root = self.alias[root]
+        return root
+
+    def canon(self, e):
+        """target text with a leading local alias replaced by the root it stands for: renaming a local, or
+        introducing one for an element of a parameter, does not change the site"""
+        t = text(e)
+        b = e
+        while isinstance(b, (ast.Attribute, ast.Subscript, ast.Starred)):
+            b = b.value
+        if isinstance(b, ast.Name) and b.id in self.alias:
+            r = self.resolve_root(b.id)
+            if r and t.startswith(b.id):
+                return r + t[len(b.id):]
+        return t
+
     def site(self, kind, target, node):
         self.sites.append({"file": self.file, "function": self.qual, "kind": kind, "target": target, "line": node.lineno})
 
@@ -201,7 +220,7 @@ class FnScan:
                     if k == "self" and name in INIT_LIKE:
                         continue
                     if k is not None:
-                        self.site(f"store:{k}", text(t), n)
+                        self.site(f"store:{k}", self.canon(t), n)
             if isinstance(n, ast.Call):
                 f = n.func
                 if isinstance(f, ast.Attribute) and f.attr in MUTATORS:
@@ -209,13 +228,13 @@ class FnScan:
                     if k == "self" and name in INIT_LIKE:
                         continue
                     if k is not None:
-                        self.site(f"mutator:{k}", f"{text(f.value)}.{f.attr}", n)
+                        self.site(f"mutator:{k}", f"{self.canon(f.value)}.{f.attr}", n)
                 if isinstance(f, ast.Name) and f.id in ("setattr", "delattr") and n.args:
                     k = self.classify(root_of(n.args[0]) if not isinstance(n.args[0], ast.Name) else n.args[0].id)
                     if k == "self" and name in INIT_LIKE:
                         continue
                     if k is not None:
-                        self.site(f"{f.id}:{k}", text(n.args[0]), n)
+                        self.site(f"{f.id}:{k}", self.canon(n.args[0]), n)
         return self.sites
 
 
@@ -275,6 +294,21 @@ def load_allow():
     return json.load(open(os.path.join(VERIF, "census_allow.json")))
 
 
+def alarming(s):
+    """kinds of site that can carry state from one call to the next whoever the caller is.  Writes through a
+    parameter, or to self of an object that lives for one parse / one model, are frame questions: they are decided
+    by the ownership and frame contracts of the functions concerned, and are only *listed* by the census."""
+    k = s["kind"]
+    if k in ("global", "nonlocal", "memo-decorator", "mutable-default"):
+        return True
+    what = k.split(":")[-1]
+    if what in ("module", "class", "cls"):
+        return True
+    if what == "self" and s["file"] == "ofxtools/Types.py":
+        return True          # the converters are descriptors: one instance serves every model object
+    return False
+
+
 def run_census(rep, repo):
     import time
     t0 = time.time()
@@ -299,6 +333,8 @@ def run_census(rep, repo):
         elif k in listed:
             rep.extra["census"]["admitted_by_listing"] += 1
             rep.ok(full, "census", 0.0, "frame", f"{s['file']}:{s['function']}", detail=listed[k]["why"][:200])
+        elif not alarming(s):
+            rep.extra["census"].setdefault("frame_sites_not_listed", []).append(k)
         else:
             rep.extra["census"]["new"].append(s)
             rep.fail(full, "census", f"write to state that outlives the call, not admitted: {s['kind']} {s['target']} at {s['file']}:{s['line']}", 0.0, "frame", f"{s['file']}:{s['function']}")
